@@ -13,7 +13,7 @@ META = dict(
               "re-establish the invariant; policy level: 3 "
               "always-failing calls alternating between two Retry/AsyncRetry objects sharing one Budget (max_retries in "
               "[0,2]), max_attempts 2, solver-real gaps between calls and sleeper overshoots",
-        thorough="K=7; 4 policy calls with max_attempts 3",
+        thorough="K=6; 4 policy calls with max_attempts 3; step harness with max_retries <= 4",
     ),
     assumptions=["floats as reals; a grant made at instant g occupies the half-open interval [g, g + window_s)",
                  "single-threaded use (C17 covers interleavings)"],
@@ -195,13 +195,14 @@ def h_step(sym, params):
 
 def jobs(tier):
     q = tier == "quick"
-    K = 5 if q else 7
+    K = 5 if q else 6
     out = []
     wall = 600 if q else 3000
     for a in range(3):
         for b_ in range(3):
-            out.append(dict(name=f"hist:K={K}:{a},{b_}", harness="rv.props.c10:h_hist", params=dict(K=K, pin_ops=[a, b_]),
-                            max_wall_s=wall, weight=3))
+            for c_ in range(3):
+                out.append(dict(name=f"hist:K={K}:{a},{b_},{c_}", harness="rv.props.c10:h_hist",
+                                params=dict(K=K, pin_ops=[a, b_, c_]), max_wall_s=wall, weight=3))
     for o in range(3):
         out.append(dict(name=f"step:op={o}", harness="rv.props.c10:h_step", params=dict(cap=3 if q else 4, pin_op=o),
                         max_wall_s=wall, weight=2))
